@@ -254,12 +254,19 @@ def memo_obligation(ctx, modnames, what):
 
 
 def _module_tables(mod):
+    """module-level dict / set names, and class-level ones (spelled `self.NAME` / `cls.NAME` / `Class.NAME` where they are used)"""
     out = set()
+    is_table = lambda v: isinstance(v, (ast.Dict, ast.Set)) or (isinstance(v, ast.Call) and isinstance(v.func, ast.Name) and v.func.id in ("dict", "set", "OrderedDict", "defaultdict"))
     for name, v in mod.constants.items():
         if "." in name:
             continue
-        if isinstance(v, (ast.Dict, ast.Set)) or (isinstance(v, ast.Call) and isinstance(v.func, ast.Name) and v.func.id in ("dict", "set", "OrderedDict", "defaultdict")):
+        if is_table(v):
             out.add(name)
+    for cname, c in mod.classes.items():
+        for st in c.body:
+            if isinstance(st, ast.Assign) and len(st.targets) == 1 and isinstance(st.targets[0], ast.Name) and is_table(st.value):
+                for recv in ("self", "cls", cname):
+                    out.add("%s.%s" % (recv, st.targets[0].id))
     return out
 
 
